@@ -22,6 +22,27 @@ def publish (s : St) (p : Nat) (act : Option Ev) : St × String :=
 def hadApp (s : St) (p : Nat) : Bool :=
   match findPub s p with | some q => q.snap.any (·.1 ≠ 0) | none => false
 
+/-- two publications at once: p1 is being handled (its first core handler is inside HandleEvent) when a second
+    goroutine publishes p2 and queues behind it (snapshot taken, waiting for muHandle); then the core handler performs
+    `act` and returns, p1 returns, p2 is handled and returns, the application goroutines run. If p1 reaches no core
+    handler the two publications simply run one after the other. -/
+def publishQueued (s : St) (p1 p2 : Nat) (act : Ev) : St × String :=
+  let s1 := step (step s (.snapshot p1)) (.handle p1)
+  let hasCore := match findPub s1 p1 with | some q => q.snap.any (·.1 = 0) | none => false
+  if hasCore then
+    let s2 := step s1 (.snapshot p2)
+    let s3 := step s2 act
+    let s4 := step (step (step s3 (.ret p1)) (.handle p2)) (.ret p2)
+    let s5 := s4.pending.foldl (fun s (ph : Nat × H) => step s (.appRun ph.1 ph.2)) s4
+    let show1 := fun (p : Nat) =>
+      let mine := s5.delivered.filter (·.1 = p)
+      showD (mine.filter (·.2.1 = 0)) ++ "|" ++ showD (sortH (mine.filter (·.2.1 ≠ 0)))
+    (s5, show1 p1 ++ ";" ++ show1 p2)
+  else
+    let (sa, o1) := publish s p1 none
+    let (sb, o2) := publish sa p2 none
+    (sb, o1 ++ ";" ++ o2)
+
 /-- line protocol of the bus model (C15)
     `sub l h` / `unsub l h`               → `ok`
     `pub p`                               → `<core deliveries in order>|<application deliveries sorted>`
@@ -29,6 +50,8 @@ def hadApp (s : St) (p : Nat) : Bool :=
     `pubapp p sub l h` / `pubapp p unsub l h` → same; an application handler of p (if p reaches one) does it
     `pubapp p pub p2`                     → `<answer of p>;<answer of the nested publication p2>` (`-` if no
                                              application handler was reached and nothing was published)
+    `pubq p1 p2 sub l h` / `pubq p1 p2 unsub l h` → `<answer of p1>;<answer of p2>`: two publishers at once, the first core
+                                             handler of p1 (un)subscribes (l,h) while p2 is queued (see `publishQueued`)
     `handlers`                            → the handler list in order -/
 def answer (s : St) (ws : List String) : St × String :=
   match ws with
@@ -37,6 +60,8 @@ def answer (s : St) (ws : List String) : St × String :=
   | ["pub", p] => publish s p.toNat! none
   | ["pubsub", p, l, h] => publish s p.toNat! (some (.subscribe (l.toNat!, h.toNat!)))
   | ["pubunsub", p, l, h] => publish s p.toNat! (some (.unsubscribe (l.toNat!, h.toNat!)))
+  | ["pubq", p1, p2, "sub", l, h] => publishQueued s p1.toNat! p2.toNat! (.subscribe (l.toNat!, h.toNat!))
+  | ["pubq", p1, p2, "unsub", l, h] => publishQueued s p1.toNat! p2.toNat! (.unsubscribe (l.toNat!, h.toNat!))
   | ["pubapp", p, "sub", l, h] =>
     let (s1, out) := publish s p.toNat! none
     (if hadApp s1 p.toNat! then step s1 (.subscribe (l.toNat!, h.toNat!)) else s1, out)
